@@ -393,12 +393,13 @@ void verif_enumerate(verif::Ctx &ctx)
     const bool th = ctx.thorough();
     if (ctx.sub == "hist")
     {
-        // every history of length <= 3 (thorough: 4) over the full alphabet
+        // every history of length <= 3 over the full alphabet; thorough adds length 4 over the letters R<p>0, B<p>0, X<p>0, C0, C1
+        // (nested-graph contexts are program-lifetime by design, so a worker's memory grows with the number of builds: many short-lived shards)
         const auto full = alphabet(th);
         std::vector<std::string> reduced;
         for (auto &a : full) if ((a[0] == 'C') || (a.size() == 3 && a[2] == '0' && a[0] != 'W')) reduced.push_back(a);
-        const int full_len = th ? 4 : 3;
-        for (int pass = 0; pass < 1; ++pass)
+        const int full_len = 3;
+        for (int pass = 0; pass < (th ? 2 : 1); ++pass)
         {
         const auto &alpha = pass == 0 ? full : reduced;
         const int L = pass == 0 ? full_len : full_len + 1;
